@@ -125,6 +125,10 @@ impl Engine for CallingContexts {
         })
     }
 
+    fn minimise_budget(&self) -> usize {
+        40
+    }
+
     fn rule(&self) -> &'static str {
         "deterministic probes: 12 calling contexts x 6 calls (four immediate ones and two that wait 30 ms); no schedule or fault is sampled here (the simulated engines do that); each (context, call) pair is one distinct case"
     }
